@@ -57,6 +57,20 @@ theorem drop_nil_size {α} {a : Array α} {i : Nat} (h : a.toList.drop i = []) (
   simp at this
   omega
 
+/-- the buffer only grows: everything already buffered stays where it is -/
+def BufExt (s s' : PState) : Prop := ∀ j, j < s.buf.size → s'.buf[j]? = s.buf[j]?
+
+theorem BufExt.refl_ticks (s : PState) (f : PState → PState) (h : (f s).buf = s.buf) : BufExt s (f s) := by
+  intro j _; rw [h]
+
+theorem BufExt.trans {a b c : PState} (h1 : BufExt a b) (h2 : BufExt b c) (hs : a.buf.size ≤ b.buf.size) :
+    BufExt a c := fun j hj => (h2 j (by omega)).trans (h1 j hj)
+
+theorem bufExt_push (s : PState) (x : Option PTok) (s' : PState) (h : s'.buf = s.buf.push x) : BufExt s s' := by
+  intro j hj
+  rw [h, Array.getElem?_push]
+  simp [Nat.ne_of_lt hj]
+
 theorem pos_push_some {buf : Array (Option PTok)} {tok : PTok}
     (hpos : ∀ (j : Nat) (t : PTok), buf[j]? = some (some t) → t.idx = j) (htok : tok.idx = buf.size) :
     ∀ (j : Nat) (t : PTok), (buf.push (some tok))[j]? = some (some t) → t.idx = j := by
@@ -80,7 +94,8 @@ theorem pos_push_none {buf : Array (Option PTok)}
 /-- `peek` on a state that sees at least one token: returns it (its index is the read position),
 consumes nothing -/
 theorem peek_spec (s : PState) (k v : String) (toks : List Tk) (h : SeesT s ((k, v) :: toks)) :
-    ∃ s', peek s = .ok (some ⟨k, v, s.idx⟩) s' ∧ SeesT s' ((k, v) :: toks) ∧ s'.scopes = s.scopes ∧ s'.idx = s.idx := by
+    ∃ s', peek s = .ok (some ⟨k, v, s.idx⟩) s' ∧ SeesT s' ((k, v) :: toks) ∧ s'.scopes = s.scopes ∧ s'.idx = s.idx ∧
+      BufExt s s' ∧ s.buf.size ≤ s'.buf.size := by
   obtain ⟨⟨bt, rt, e, hbuf, hraw, htoks, he, hneu, hpul⟩, hle, hpos⟩ := h
   cases bt with
   | cons t bt' =>
@@ -93,7 +108,7 @@ theorem peek_spec (s : PState) (k v : String) (toks : List Tk) (h : SeesT s ((k,
       have := (Array.getElem?_eq_some_iff.mp hget).1
       omega
     have hti := hpos _ _ hget
-    refine ⟨{ s with ticks := s.ticks + 1 }, ?_, ⟨⟨t :: bt', rt, e, hbuf, hraw, ?_, he, hneu, hpul⟩, hle, hpos⟩, rfl, rfl⟩
+    refine ⟨{ s with ticks := s.ticks + 1 }, ?_, ⟨⟨t :: bt', rt, e, hbuf, hraw, ?_, he, hneu, hpul⟩, hle, hpos⟩, rfl, rfl, fun j _ => rfl, Nat.le_refl _⟩
     · simp only [peek, peekK, fill]
       simp [hlt, hget]
       cases t; simp_all
@@ -114,7 +129,7 @@ theorem peek_spec (s : PState) (k v : String) (toks : List Tk) (h : SeesT s ((k,
     refine ⟨{ s0 with raw := toks.map (fun t => SEv.tok t.1 t.2) ++ [.eof], pulled := s.pulled + 1,
                        fileRef := s.pulled + 1, lexCalls := s.lexCalls + 1,
                        buf := s.buf.push (some tok) }, ?_,
-            ⟨⟨[tok], toks, false, ?_, rfl, rfl, by simp, ?_, ?_⟩, ?_, ?_⟩, rfl, rfl⟩
+            ⟨⟨[tok], toks, false, ?_, rfl, rfl, by simp, ?_, ?_⟩, ?_, ?_⟩, rfl, rfl, bufExt_push s _ _ rfl, by simp⟩
     · have hlt : s0.buf.size < s0.idx + 1 := by show s.buf.size < s.idx + 1; omega
       have hfill : fill 1 1 { s with ticks := s.ticks + 1 } = .ok ()
           { s0 with raw := toks.map (fun t => SEv.tok t.1 t.2) ++ [.eof], pulled := s.pulled + 1,
@@ -137,7 +152,8 @@ theorem peek_spec (s : PState) (k v : String) (toks : List Tk) (h : SeesT s ((k,
 
 /-- `advance` on a state that sees at least one token: returns it and moves past it -/
 theorem advance_spec (s : PState) (k v : String) (toks : List Tk) (h : SeesT s ((k, v) :: toks)) :
-    ∃ s', advance s = .ok ⟨k, v, s.idx⟩ s' ∧ SeesT s' toks ∧ s'.scopes = s.scopes ∧ s'.idx = s.idx + 1 := by
+    ∃ s', advance s = .ok ⟨k, v, s.idx⟩ s' ∧ SeesT s' toks ∧ s'.scopes = s.scopes ∧ s'.idx = s.idx + 1 ∧
+      BufExt s s' ∧ s.buf.size ≤ s'.buf.size ∧ s'.buf[s.idx]? = some (some ⟨k, v, s.idx⟩) := by
   obtain ⟨⟨bt, rt, e, hbuf, hraw, htoks, he, hneu, hpul⟩, hle, hpos⟩ := h
   cases bt with
   | cons t bt' =>
@@ -150,7 +166,7 @@ theorem advance_spec (s : PState) (k v : String) (toks : List Tk) (h : SeesT s (
     have hlt : ¬ s.buf.size < s.idx + 1 := by omega
     have hti := hpos _ _ hget
     refine ⟨{ s with ticks := s.ticks + 1, idx := s.idx + 1 }, ?_,
-      ⟨⟨bt', rt, e, ?_, hraw, htl, he, hneu, hpul⟩, ?_, hpos⟩, rfl, rfl⟩
+      ⟨⟨bt', rt, e, ?_, hraw, htl, he, hneu, hpul⟩, ?_, hpos⟩, rfl, rfl, fun j _ => rfl, Nat.le_refl _, ?_⟩
     · simp only [advance, nextTok, fill, bind_apply]
       simp [hlt, hget]
       cases t; simp_all
@@ -160,6 +176,8 @@ theorem advance_spec (s : PState) (k v : String) (toks : List Tk) (h : SeesT s (
         rw [List.drop_drop]
       rw [this, hbuf]; simp
     · show s.idx + 1 ≤ s.buf.size; omega
+    · show s.buf[s.idx]? = _
+      rw [hget]; cases t; simp_all
   | nil =>
     simp only [List.map_nil, List.nil_append] at htoks hbuf
     subst htoks
@@ -176,7 +194,7 @@ theorem advance_spec (s : PState) (k v : String) (toks : List Tk) (h : SeesT s (
     refine ⟨{ s0 with raw := toks.map (fun t => SEv.tok t.1 t.2) ++ [.eof], pulled := s.pulled + 1,
                        fileRef := s.pulled + 1, lexCalls := s.lexCalls + 1,
                        buf := s.buf.push (some tok), idx := s.idx + 1 }, ?_,
-            ⟨⟨[], toks, false, ?_, rfl, rfl, by simp, ?_, ?_⟩, ?_, ?_⟩, rfl, rfl⟩
+            ⟨⟨[], toks, false, ?_, rfl, rfl, by simp, ?_, ?_⟩, ?_, ?_⟩, rfl, rfl, bufExt_push s _ _ rfl, by simp, ?_⟩
     · have hlt : s0.buf.size < s0.idx + 1 := by show s.buf.size < s.idx + 1; omega
       have hfill : fill 1 1 { s with ticks := s.ticks + 1 } = .ok ()
           { s0 with raw := toks.map (fun t => SEv.tok t.1 t.2) ++ [.eof], pulled := s.pulled + 1,
@@ -195,10 +213,13 @@ theorem advance_spec (s : PState) (k v : String) (toks : List Tk) (h : SeesT s (
     · show s.idx + 1 ≤ (s.buf.push (some tok)).size
       simp; omega
     · exact pos_push_some hpos (by show s.pulled = s.buf.size; exact hp)
+    · show (s.buf.push (some tok))[s.idx]? = _
+      simp [hsz, tok, hp]
 
 /-- `peek` at the end of the input returns `None` (and may record the end marker) -/
 theorem peek_end (s : PState) (h : SeesT s []) :
-    ∃ s', peek s = .ok none s' ∧ SeesT s' [] ∧ s'.scopes = s.scopes ∧ s'.idx = s.idx := by
+    ∃ s', peek s = .ok none s' ∧ SeesT s' [] ∧ s'.scopes = s.scopes ∧ s'.idx = s.idx ∧
+      BufExt s s' ∧ s.buf.size ≤ s'.buf.size := by
   obtain ⟨⟨bt, rt, e, hbuf, hraw, htoks, he, hneu, hpul⟩, hle, hpos⟩ := h
   have hbt : bt = [] := by cases bt with | nil => rfl | cons _ _ => simp at htoks
   have hrt : rt = [] := by cases rt with | nil => rfl | cons _ _ => simp [hbt] at htoks
@@ -214,7 +235,7 @@ theorem peek_end (s : PState) (h : SeesT s []) :
       have := (Array.getElem?_eq_some_iff.mp hget).1
       omega
     refine ⟨{ s with ticks := s.ticks + 1 }, ?_,
-      ⟨⟨[], [], true, by simpa using hbuf, by simpa using hraw, rfl, by simp, by simp, by simp⟩, hle, hpos⟩, rfl, rfl⟩
+      ⟨⟨[], [], true, by simpa using hbuf, by simpa using hraw, rfl, by simp, by simp, by simp⟩, hle, hpos⟩, rfl, rfl, fun j _ => rfl, Nat.le_refl _⟩
     simp only [peek, peekK, fill]
     simp [hlt, hget]
   | false =>
@@ -232,7 +253,7 @@ theorem peek_end (s : PState) (h : SeesT s []) :
       simp only [fill, hlt, ↓reduceIte, hlex]
       rfl
     refine ⟨{ s0 with fileRef := s.pulled + 1, lexCalls := s.lexCalls + 1, buf := s.buf.push none }, ?_,
-      ⟨⟨[], [], true, ?_, by simpa using hraw, rfl, by simp, by simp, by simp⟩, ?_, pos_push_none hpos⟩, rfl, rfl⟩
+      ⟨⟨[], [], true, ?_, by simpa using hraw, rfl, by simp, by simp, by simp⟩, ?_, pos_push_none hpos⟩, rfl, rfl, bufExt_push s _ _ rfl, by simp⟩
     · show peekK 1 s = _
       unfold peekK
       simp only [show ((1 : Nat) == 0) = false from rfl, Bool.false_eq_true, ↓reduceIte]
@@ -242,5 +263,134 @@ theorem peek_end (s : PState) (h : SeesT s []) :
       simp [hsz]
     · show s.idx ≤ (s.buf.push none).size
       simp; omega
+
+
+/-! ## looking further ahead, and going back -/
+
+/-- `_fill(n)` when at least `n` tokens are still to come: buffers them, changes nothing else -/
+theorem fill_spec : ∀ (fuel n : Nat) (s : PState) (toks : List Tk), SeesT s toks → n ≤ toks.length →
+    n ≤ fuel + (s.buf.size - s.idx) →
+    ∃ s', fill fuel n s = .ok () s' ∧ SeesT s' toks ∧ s'.scopes = s.scopes ∧ s'.idx = s.idx ∧
+      BufExt s s' ∧ s.buf.size ≤ s'.buf.size ∧ s.idx + n ≤ s'.buf.size ∧ s'.ticks = s.ticks := by
+  intro fuel
+  induction fuel with
+  | zero =>
+    intro n s toks h hn hf
+    refine ⟨s, rfl, h, rfl, rfl, fun _ _ => rfl, Nat.le_refl _, ?_, rfl⟩
+    have := h.idx_le; omega
+  | succ fuel ih =>
+    intro n s toks h hn hf
+    by_cases hlt : s.buf.size < s.idx + n
+    · obtain ⟨⟨bt, rt, e, hbuf, hraw, htoks, he, hneu, hpul⟩, hle, hpos⟩ := h
+      have hlen : (s.buf.toList.drop s.idx).length = s.buf.size - s.idx := by simp
+      have hbl : bt.length + (if e then 1 else 0) = s.buf.size - s.idx := by
+        rw [← hlen, hbuf]; cases e <;> simp
+      have htl : toks.length = bt.length + rt.length := by rw [htoks]; simp
+      -- the end marker cannot be buffered yet, and a token is still to be lexed
+      have he' : e = false := by
+        cases e with
+        | false => rfl
+        | true => have := he rfl; subst this; simp at hbl htl; omega
+      subst he'
+      simp only [Bool.false_eq_true, ↓reduceIte, Nat.add_zero, List.append_nil] at hbl hbuf
+      cases rt with
+      | nil => simp at htl; omega
+      | cons t rt' =>
+        obtain ⟨k, v⟩ := t
+        have hp := hpul rfl
+        simp only [List.map_cons, List.cons_append] at hraw
+        have hn' : neutral s.scopes (k, v) := hneu (k, v) (by simp)
+        have hlex := lexToken_neutral s k v _ hraw hn'
+        let tok : PTok := ⟨k, v, s.pulled⟩
+        let s1 : PState := { s with raw := rt'.map (fun t => SEv.tok t.1 t.2) ++ [.eof], pulled := s.pulled + 1,
+                                    fileRef := s.pulled + 1, lexCalls := s.lexCalls + 1, buf := s.buf.push (some tok) }
+        have hs1 : SeesT s1 toks := by
+          refine ⟨⟨bt ++ [tok], rt', false, ?_, rfl, ?_, by simp, ?_, ?_⟩, ?_, ?_⟩
+          · show (s.buf.push (some tok)).toList.drop s.idx = _
+            simp only [Array.toList_push, List.map_append, List.map_cons, List.map_nil]
+            rw [List.drop_append_of_le_length (by simp; exact hle), hbuf]
+            simp
+          · rw [htoks]; simp [tok]
+          · intro t ht; exact hneu t (by simp [ht])
+          · intro _; show s.pulled + 1 = (s.buf.push (some tok)).size; simp; omega
+          · show s.idx ≤ (s.buf.push (some tok)).size; simp; omega
+          · exact pos_push_some hpos (by show s.pulled = s.buf.size; exact hp)
+        obtain ⟨s', hf', hs', hsc, hidx, hext, hsz, hnb, htk⟩ := ih n s1 toks hs1 hn (by
+          show n ≤ fuel + ((s.buf.push (some tok)).size - s.idx); simp; omega)
+        refine ⟨s', ?_, hs', hsc, hidx, ?_, ?_, hnb, htk⟩
+        · simp only [fill, hlt, ↓reduceIte, hlex]
+          exact hf'
+        · exact BufExt.trans (bufExt_push s _ s1 rfl) hext (by show s.buf.size ≤ (s.buf.push (some tok)).size; simp)
+        · have : s.buf.size ≤ s1.buf.size := by show s.buf.size ≤ (s.buf.push (some tok)).size; simp
+          omega
+    · refine ⟨s, by simp [fill, hlt], h, rfl, rfl, fun _ _ => rfl, Nat.le_refl _, by omega, rfl⟩
+
+
+/-- `peek(k)` (k >= 1) when at least `k` tokens are still to come -/
+theorem peekK_spec (kk : Nat) (s : PState) (toks : List Tk) (t : Tk) (h : SeesT s toks)
+    (ht : toks[kk]? = some t) :
+    ∃ s', peekK (kk + 1) s = .ok (some ⟨t.1, t.2, s.idx + kk⟩) s' ∧ SeesT s' toks ∧ s'.scopes = s.scopes ∧
+      s'.idx = s.idx ∧ BufExt s s' ∧ s.buf.size ≤ s'.buf.size := by
+  have hlen : kk + 1 ≤ toks.length := by
+    have := (List.getElem?_eq_some_iff.mp ht).1; omega
+  let s0 : PState := { s with ticks := s.ticks + 1 }
+  have hs0 : SeesT s0 toks := ⟨h.buffered, h.idx_le, h.pos⟩
+  obtain ⟨s', hf, hs', hsc, hidx, hext, hsz, hnb, _⟩ := fill_spec (kk + 1) (kk + 1) s0 toks hs0 hlen (by omega)
+  refine ⟨s', ?_, hs', hsc, hidx, hext, hsz⟩
+  -- the entry at idx + kk is the kk-th upcoming token
+  obtain ⟨⟨bt, rt, e, hbuf, hraw, htoks, he, hneu, hpul⟩, hle, hpos⟩ := hs'
+  have hlen' : (s'.buf.toList.drop s'.idx).length = s'.buf.size - s'.idx := by simp
+  have hbl : bt.length + (if e then 1 else 0) = s'.buf.size - s'.idx := by
+    rw [← hlen', hbuf]; cases e <;> simp
+  have hbt : kk < bt.length := by
+    have hi : s'.idx = s.idx := hidx
+    have hnb' : s.idx + (kk + 1) ≤ s'.buf.size := hnb
+    cases e with
+    | false => simp at hbl; omega
+    | true =>
+      have := he rfl; subst this
+      have : toks.length = bt.length := by rw [htoks]; simp
+      omega
+  have hget : s'.buf[s'.idx + kk]? = some (some bt[kk]) := by
+    rw [← Array.getElem?_toList, ← List.getElem?_drop, hbuf]
+    simp [List.getElem?_append_left, hbt]
+  have hti := hpos _ _ hget
+  have htk : (bt[kk].kind, bt[kk].val) = t := by
+    have : toks[kk]? = some (bt[kk].kind, bt[kk].val) := by
+      rw [htoks]; simp [List.getElem?_append_left, hbt]
+    rw [ht] at this; exact (Option.some.inj this).symm
+  show peekK (kk + 1) s = _
+  unfold peekK
+  simp only [show ((kk + 1 : Nat) == 0) = false by simp, Bool.false_eq_true, ↓reduceIte]
+  have hf' : fill (kk + 1) (kk + 1) { s with ticks := s.ticks + 1 } = .ok () s' := hf
+  rw [hf']
+  have hi : s'.idx = s.idx := hidx
+  have e1 : s'.idx + (kk + 1) - 1 = s'.idx + kk := by omega
+  simp only [e1, hget]
+  cases hb : bt[kk] with
+  | mk k v i =>
+    rw [hb] at htk hti
+    simp only at htk hti
+    rw [← htk, hti, hi]
+
+/-- going back over one token that is still in the buffer (`_reset(mark)` right after an `_advance`) -/
+theorem reset_one (s : PState) (toks : List Tk) (m : Nat) (t : PTok) (h : SeesT s toks) (hi : s.idx = m + 1)
+    (hb : s.buf[m]? = some (some t)) :
+    ∃ s', reset m s = .ok () s' ∧ SeesT s' ((t.kind, t.val) :: toks) ∧ s'.scopes = s.scopes ∧ s'.idx = m ∧
+      BufExt s s' ∧ s.buf.size ≤ s'.buf.size := by
+  obtain ⟨⟨bt, rt, e, hbuf, hraw, htoks, he, hneu, hpul⟩, hle, hpos⟩ := h
+  refine ⟨{ s with idx := m, ticks := s.ticks + 1 }, rfl,
+    ⟨⟨t :: bt, rt, e, ?_, hraw, by simp [htoks], he, hneu, hpul⟩, by show m ≤ s.buf.size; omega, hpos⟩,
+    rfl, rfl, fun _ _ => rfl, Nat.le_refl _⟩
+  show s.buf.toList.drop m = _
+  have hlt : m < s.buf.toList.length := by
+    have := (Array.getElem?_eq_some_iff.mp hb).1; simpa using this
+  rw [List.drop_eq_getElem_cons hlt]
+  have hg : s.buf.toList[m] = some t := by
+    have := hb
+    rw [← Array.getElem?_toList, List.getElem?_eq_getElem hlt] at this
+    exact Option.some.inj this
+  rw [hg, ← hi, hbuf]
+  simp
 
 end PycModel.View
